@@ -238,32 +238,70 @@ func runC08Alloc(c *kit.Ctx, k *keyer) {
 			ns++
 			key := k.key(s.Fn, "infodownloader.New")
 			next := s.Fn
-			hasEH := c.FieldNil(next, fEH, false)
-			capOK := c.AtomFlow(next, func(a kit.Atom) bool {
+			// function-agnostic facts (keyed on fields), evaluated at the call site
+			// including the context of its static callers: the construction may sit
+			// in a helper that is called under the guards
+			killMS := func(ins ssa.Instruction, in bool) bool {
+				if in && (c.KillsField(ins, fMS) || c.KillsField(ins, fEH)) {
+					return false
+				}
+				return in
+			}
+			hasEH := c.FieldNilSpec(fEH, false, kit.DefaultDeep)
+			capOK := &kit.Spec{P: c.Prog, Deep: kit.DefaultDeep, Instr: killMS, Edge: func(a kit.Atom) bool {
 				ok, _ := a.UpperBound(func(e *kit.Expr) bool { return e.Strip().IsField(fMS) }, func(e *kit.Expr) bool { return e.Strip().IsField(fCfgMax) })
 				return ok
-			}, func(ins ssa.Instruction) bool { return c.KillsField(ins, fMS) || c.KillsField(ins, fEH) })
-			nonZero := c.AtomFlow(next, func(a kit.Atom) bool {
+			}}
+			nonZero := &kit.Spec{P: c.Prog, Deep: kit.DefaultDeep, Instr: killMS, Edge: func(a kit.Atom) bool {
 				z, ok := a.R.IntConst()
 				return ok && z == 0 && a.L.Strip().IsField(fMS) && (a.Op == token.NEQ || a.Op == token.GTR)
-			}, func(ins ssa.Instruction) bool { return c.KillsField(ins, fMS) || c.KillsField(ins, fEH) })
+			}}
 			// the peer handed to New is the peer whose handshake was tested
-			arg := kit.Canon(argOf(s.Instr.Common(), 0)).Strip()
-			samePeer := false
-			kit.Instrs(next, func(ins ssa.Instruction) {
-				if v, ok := ins.(ssa.Value); ok {
-					e := kit.Canon(v)
-					if e.IsField(fMS) && e.Base() != nil && e.Base().IsField(fEH) && e.Base().Base() != nil && e.Base().Base().String() == arg.String() {
-						samePeer = true
+			argV := argOf(s.Instr.Common(), 0)
+			arg := kit.Canon(argV).Strip()
+			// ... in the function itself, or (the argument being a parameter of a
+			// helper) in every static caller about the value passed for it
+			var testedIn func(fn *ssa.Function, v ssa.Value, up int) bool
+			testedIn = func(fn *ssa.Function, v ssa.Value, up int) bool {
+				want := kit.Canon(v).Strip().String()
+				found := false
+				kit.Instrs(fn, func(ins ssa.Instruction) {
+					if v, ok := ins.(ssa.Value); ok {
+						e := kit.Canon(v)
+						if e.IsField(fMS) && e.Base() != nil && e.Base().IsField(fEH) && e.Base().Base() != nil && e.Base().Base().String() == want {
+							found = true
+						}
+					}
+				})
+				if found || up <= 0 {
+					return found
+				}
+				p := paramOfRoot(exprRoot(kit.Canon(v).Strip()))
+				if p == nil || p.Parent() != fn || kit.Canon(v).Strip().Kind != "param" {
+					return false
+				}
+				sites := c.StaticCallSites(fn)
+				if len(sites) == 0 {
+					return false
+				}
+				for _, cs := range sites {
+					if cs == nil {
+						return false
+					}
+					a := argOf(kit.CallOf(cs), paramIndex(p))
+					if a == nil || !testedIn(cs.Parent(), a, up-1) {
+						return false
 					}
 				}
-			})
+				return true
+			}
+			samePeer := testedIn(next, argV, 2)
 			switch {
-			case !hasEH.Before(s.Instr):
+			case !hasEH.Holds(s.Instr, 2):
 				c.Bad("R08.1", key, posOf(s.Instr), "peer may have no extension handshake (nil dereference in MetadataSize)")
-			case !capOK.Before(s.Instr):
+			case !capOK.Holds(s.Instr, 2):
 				c.Bad("R08.1", key, posOf(s.Instr), "infodownloader.New reachable without MetadataSize <= config.MaxMetadataSize: a peer announcing a huge metadata_size makes the client allocate it")
-			case !nonZero.Before(s.Instr):
+			case !nonZero.Holds(s.Instr, 2):
 				c.Bad("R08.1", key, posOf(s.Instr), "infodownloader.New reachable with MetadataSize == 0")
 			case !samePeer:
 				c.Bad("R08.1", key, posOf(s.Instr), "the peer given to infodownloader.New (%s) is not the peer whose MetadataSize was tested", arg)
@@ -455,7 +493,7 @@ func runC08Dispatch(c *kit.Ctx, k *keyer) {
 		// the replay goes through handlePeerMessage
 		pq := c.Func("torrent", "(*torrent).processQueuedMessages")
 		replays := false
-		kit.Instrs(pq, func(ins ssa.Instruction) {
+		c.InstrsDeep(pq, 2, false, func(ins ssa.Instruction) {
 			if cl, ok := ins.(*ssa.Call); ok && cl.Call.StaticCallee() == h {
 				replays = true
 			}
